@@ -118,6 +118,34 @@ pub fn run(args: &Args) -> Report {
             }
         }
     }
+    // windows at and around the limits of the 32-bit field (the options API accepts every positive u32): the handshake
+    // carries them unabridged, the credit arithmetic neither wraps nor truncates, and a window of one still works
+    // against them
+    {
+        const M: u32 = u32::MAX;
+        let big = [(M, M), (65_536, 65_535), (M, 1), (0x8000_0000, 0x7fff_ffff), (70_000, 3)];
+        let small = [(1u32, 1u32), (2, M)];
+        let mut pairs: Vec<((u32, u32), (u32, u32))> = Vec::new();
+        for &x in &big {
+            for &y in &small {
+                pairs.push((x, y));
+                pairs.push((y, x));
+            }
+        }
+        pairs.push(((M, M), (M, M)));
+        pairs.push(((65_536, 65_535), (0x8000_0000, 0x7fff_ffff)));
+        for (a, b) in pairs {
+            let streams = vec![StreamSpec {
+                tag: 1,
+                opener: 0,
+                opener_plan: EndPlan::Split(vec![Op::Burst(5, 2), Op::Shutdown], vec![Op::ReadToEof(1)]),
+                acceptor_plan: EndPlan::Split(vec![Op::Burst(5, 1), Op::Shutdown], vec![Op::ReadToEof(3)]),
+            }];
+            let cfg = XferCfg { a, b, cap: 0, streams, stream_buffer: 4, one_byte_frames: false, dgram_pingpong: 0, dgram_buffer: 4, drop_mux_when_writers_done: None, extra: xfer::XferExtra::NONE, horizon: 8000 };
+            let label = format!("windows at the limits of the 32-bit field | {}", cfg.describe());
+            cases.push(Case { try_unbounded: false, max_k: 1, label, exec: Box::new(move |r| xfer::exec(&cfg, &or, r)) });
+        }
+    }
     // a bridged end (MuxStream::into_copy_bidirectional, the path the penguin binaries use) whose local side has far more
     // than one frame's worth of data ready at once: still one unit of credit per frame on the wire
     for (a, b) in [((2u32, 1u32), (1u32, 1u32)), ((1, 1), (3, 2))] {
